@@ -185,6 +185,8 @@ package rapid
 //@ event RestoreHandled = call rapid.handleRestore
 //@ func (*rapidContext).HandleRestore
 //@   requires restore != nil
+// wiring fact of Start, assumed at the exported entry point (its callers reach it through the interop.RapidContext interface)
+//@   requires r.credentialsService != nil && typeis(r.credentialsService, *core.credentialsServiceImpl) && r.credentialsService.(*core.credentialsServiceImpl) != nil
 //@   ensures [does-not-wait-for-other-handlers] delta(RestoreHandled) == 1 && (delta(AnyMutexLock) >= 1 ==> first(RestoreHandled) < first(AnyMutexLock))
 
 //@ func sendInvokeStartLogEvent
@@ -398,8 +400,13 @@ package rapid
 //@   requires execCtx != nil
 //@   ensures [reports-recorded-status] delta(EvRestoreRuntimeDone) == 1 && delta(EvRestoreRuntimeDoneSuccess) == ite(old(restoreStatus) == telemetry.RuntimeDoneSuccess, 1, 0) && delta(ReleaseRuntime) == 0 && delta(RestoreAwaited) == 0 && delta(CredentialsUpdated) == 0 && delta(RuntimeParkedOnRestore) == 0
 
+// C18 ("returns at once if the runtime never entered the restore poll") covers the orders in which no runtime object exists yet
+// (the restore request overtakes the initialisation) or no longer (after a reset): panic-freedom is proved here, under the
+// wiring facts established by Start (the credentials service is the one NewCredentialsService made)
 //@ func handleRestore
+//@   safety on
 //@   requires execCtx != nil && restore != nil
+//@   requires execCtx.credentialsService != nil && typeis(execCtx.credentialsService, *core.credentialsServiceImpl) && execCtx.credentialsService.(*core.credentialsServiceImpl) != nil
 //@   ensures [credentials-first] delta(CredentialsUpdated) == 1 && (delta(CredentialsUpdateFailed) == 1 ==> r1 == interop.ErrRestoreUpdateCredentials && delta(ReleaseRuntime) == 0 && delta(RestoreAwaited) == 0 && delta(RendererSet) == 0)
 //@   ensures [released-only-if-parked-on-the-restore-poll] delta(ReleaseRuntime) <= 1 && (delta(ReleaseRuntime) == 1 ==> delta(RuntimeParkedOnRestore) >= 1 && last(RuntimeParkedOnRestore) < first(ReleaseRuntime) && first(CredentialsUpdated) < first(ReleaseRuntime))
 //@   ensures [returns-at-once-if-never-parked] delta(CredentialsUpdateFailed) == 0 && delta(RuntimeParkedOnRestore) == 0 ==> r1 == nil && delta(ReleaseRuntime) == 0 && delta(RestoreAwaited) == 0
